@@ -6,6 +6,10 @@ written, the text is read by stdlib json and compared cell by cell and
 attribute by attribute with the description (M1), reloaded and observed
 through the public attributes (M3), re-dumped (M4) and cycled through a real
 file (M5).  Image-count conservation per cell is part of M1/M3.
+
+Later additions: M6 - the re-read manifest is edited (an image leaves a cell, checksum types dropped, volume id and
+implanted md5 cleared) and written again; free-text checksum values; Compose(dir).images as a further entry point,
+the file rewritten in place with equal size and modification time.
 """
 import json
 import os
